@@ -45,7 +45,10 @@ def correspond(c, stream, drv, pairs):
         outs = orig(exe, lines, timeout)
         res = []
         for m, (_, g) in zip(outs, pairs):
-            if m.startswith("either ") and (g == "err" or g.split(" ")[0] == m.split(" ")[1]):
+            if m == "either multi" and all(part.split(" ")[0] in ("ok", "err", "nil") for part in g.split(" ## ")):
+                undecided[0] += 1     # several calls on one Decoder, an INT text the model does not decide among them
+                res.append(g)
+            elif m.startswith("either ") and (g == "err" or g.split(" ")[0] == m.split(" ")[1]):
                 undecided[0] += 1
                 res.append(g)
             else:
